@@ -117,32 +117,32 @@ def toString32Texts : List String := ["z8000000000000", "z", "x"]
 def toLong32Texts : List String := ["", "z8000000000000"]
 
 def loop_to_str.pre : List GoSem.Stmt := [
-    .set 2 (.lit 32),
+    .set 3 (.lit 32),
     .set 1 (.lit 64)]
 def loop_to_str.init : List GoSem.Stmt := [
     .set 0 (.neg .i64 (.var 0))]
-def loop_to_str.cond : GoSem.Cond := (.le (.var 0) (.neg .i64 (.var 2)))
+def loop_to_str.cond : GoSem.Cond := (.le (.var 0) (.neg .i64 (.var 3)))
 def loop_to_str.post : List GoSem.Stmt := [
-    .set 0 (.bin .quo .i64 (.var 0) (.var 2))]
+    .set 0 (.bin .quo .i64 (.var 0) (.var 3))]
 def loop_to_str.body : List GoSem.Stmt := [
-    .set 3 (.idx 1001 (.conv .i64 (.neg .i64 (.bin .rem .i64 (.var 0) (.var 2))))),
+    .set 4 (.idx 1001 (.conv .i64 (.neg .i64 (.bin .rem .i64 (.var 0) (.var 3))))),
     .set 1 (.bin .sub .i64 (.var 1) (.lit 1))]
 def loop_to_str.after : List GoSem.Stmt := [
-    .set 3 (.idx 1001 (.conv .i64 (.neg .i64 (.var 0))))]
-def loop_to_str.names : List (String × Nat) := [("i", 0), ("charPos", 1), ("radix", 2), ("buf@", 3)]
+    .set 4 (.idx 1001 (.conv .i64 (.neg .i64 (.var 0))))]
+def loop_to_str.names : List (String × Nat) := [("i", 0), ("charPos", 1), ("buf", 2), ("radix", 3), ("buf@", 4)]
 
 def loop_to_long.pre : List GoSem.Stmt := [
     .set 2 (.lit 0),
-    .set 3 (.lit (-9223372036854775807)),
-    .set 4 (.bin .quo .i64 (.var 3) (.lit 32))]
+    .set 5 (.lit (-9223372036854775807)),
+    .set 4 (.bin .quo .i64 (.var 5) (.lit 32))]
 def loop_to_long.body : List GoSem.Stmt := [
     .retIf (.lt (.var 2) (.var 4)) (.lit 0),
     .set 2 (.bin .mul .i64 (.var 2) (.lit 32)),
-    .retIf (.lt (.var 2) (.bin .add .i64 (.var 3) (.var 5))) (.lit 0),
-    .set 2 (.bin .sub .i64 (.var 2) (.var 5))]
+    .retIf (.lt (.var 2) (.bin .add .i64 (.var 5) (.var 6))) (.lit 0),
+    .set 2 (.bin .sub .i64 (.var 2) (.var 6))]
 def loop_to_long.after : List GoSem.Stmt := [
     .ret (.neg .i64 (.var 2))]
-def loop_to_long.names : List (String × Nat) := [("s", 0), ("i", 1), ("result", 2), ("limit", 3), ("multmin", 4), ("digit", 5)]
+def loop_to_long.names : List (String × Nat) := [("s", 0), ("i", 1), ("result", 2), ("findc", 3), ("multmin", 4), ("limit", 5), ("digit", 6)]
 
 def fn_findc : GoSem.Fn :=
   { params := [(0, .i64)], result := .i64, body := [
